@@ -1,7 +1,137 @@
-(* C18 -- property theorems only: each is closed by [exact] of a lemma proved elsewhere. *)
-From Coq Require Import List Arith.
-From Muscle Require Import Conc.RwMutexModel Conc.RwMutexProofs.
+(* C18 -- property theorems only: each is closed by [exact] of a lemma proved elsewhere (Conc/RwMutex*.v).
+   The model: Conc/RwMutexModel.v, an interleaving LTS of system/ReaderWriterMutex.cpp (any number of threads, any
+   sequence of API calls per thread, both _preferWriters settings, timeouts firing at any decision). *)
+From Coq Require Import List Arith Bool.
+Import ListNotations.
+From Muscle Require Import Conc.RwMutexModel Conc.RwMutexProofs Conc.RwMutexInv Conc.RwMutexThms.
 
-Theorem C18_find_setv_same : forall A (t : tid) (v : A) l, find t (setv t v l) = Some v.
-Proof. exact find_setv_same. Qed.
-Print Assumptions C18_find_setv_same.
+(* The inductive invariant: read mode / write mode of the table + every thread's code position agrees with the tables. *)
+Theorem C18_invariant : forall pref s, reachable pref s -> inv s.
+Proof. exact inv_reachable. Qed.
+Print Assumptions C18_invariant.
+
+(* rw_exclusion: a thread that holds the lock for writing is the only thread that holds it at all (table level) *)
+Theorem C18_rw_exclusion : forall pref s, reachable pref s ->
+  forall t e t' e', In (t, e) (g_exec (s_g s)) -> 0 < e_rw e -> In (t', e') (g_exec (s_g s)) -> t' = t /\ e' = e.
+Proof. exact exclusion_table. Qed.
+Print Assumptions C18_rw_exclusion.
+
+(* ... and at the level of what the returned API calls entitle the threads to (the only exception is the documented one:
+   a thread inside an upgrading LockReadWrite() has given its read locks up for the duration of that call) *)
+Theorem C18_rw_exclusion_user : forall pref s, reachable pref s ->
+  forall t t', t' <> t -> 0 < l_hrw (s_l s t) ->
+  (l_hro (s_l s t') = 0 /\ l_hrw (s_l s t') = 0) \/ l_stk (s_l s t') <> [].
+Proof. exact exclusion_user. Qed.
+Print Assumptions C18_rw_exclusion_user.
+
+(* rw_counts: outside any call, a thread's table entry is exactly (#successful LockReadOnly - #successful UnlockReadOnly,
+   #successful LockReadWrite - #successful UnlockReadWrite) of its returned calls -- each release undoes exactly one acquire,
+   failed calls (timed out, B_LOCK_FAILED) leave the thread's holdings unchanged -- and it is in no waiting table *)
+Theorem C18_rw_counts : forall pref s, reachable pref s -> forall t, l_act (s_l s t) = AIdle ->
+  find t (g_exec (s_g s)) = mk_ent (l_hro (s_l s t)) (l_hrw (s_l s t)) /\
+  memk t (g_wr (s_g s)) = false /\ memk t (g_ww (s_g s)) = false.
+Proof. exact counts_idle. Qed.
+Print Assumptions C18_rw_counts.
+
+Theorem C18_rw_unlock_ro : forall pref s, reachable pref s -> forall t g' l' o,
+  l_act (s_l s t) = AEnterUnRO -> l_stk (s_l s t) = [] ->
+  step pref t CRun (s_g s) (s_l s t) = Some (g', l', o) ->
+  (l_hro (s_l s t) = 0 -> o_ret o = Some SLockFailed /\ g' = s_g s) /\
+  (0 < l_hro (s_l s t) -> o_ret o = Some SOk /\ l_hro l' = pred (l_hro (s_l s t)) /\ l_hrw l' = l_hrw (s_l s t)).
+Proof. exact unlock_ro_status. Qed.
+Print Assumptions C18_rw_unlock_ro.
+
+Theorem C18_rw_unlock_rw : forall pref s, reachable pref s -> forall t g' l' o,
+  l_act (s_l s t) = AEnterUnRW -> l_stk (s_l s t) = [] ->
+  step pref t CRun (s_g s) (s_l s t) = Some (g', l', o) ->
+  (l_hrw (s_l s t) = 0 -> o_ret o = Some SLockFailed /\ g' = s_g s) /\
+  (0 < l_hrw (s_l s t) -> o_ret o = Some SOk /\ l_hrw l' = pred (l_hrw (s_l s t)) /\ l_hro l' = l_hro (s_l s t)).
+Proof. exact unlock_rw_status. Qed.
+Print Assumptions C18_rw_unlock_rw.
+
+(* rw_try_unchanged: a try acquisition is one transition: it returns at once, never parks, and on failure the lock state is
+   unchanged (since fix F21 this includes TryLockReadWrite() on the upgrade path) *)
+Theorem C18_rw_try_unchanged_ro : forall pref t g l, l_act l = AEnterRO Try -> l_stk l = [] ->
+  exists g' l' o, step pref t CRun g l = Some (g', l', o) /\
+    (o_ret o = Some SOk \/ (o_ret o = Some STimedOut /\ g' = g)) /\ o_park o = None /\ l_act l' = AIdle.
+Proof. exact try_ro_one_step. Qed.
+Print Assumptions C18_rw_try_unchanged_ro.
+
+Theorem C18_rw_try_unchanged_rw : forall pref t g l, l_act l = AEnterRW Try -> l_stk l = [] ->
+  exists g' l' o, step pref t CRun g l = Some (g', l', o) /\
+    (o_ret o = Some SOk \/ (o_ret o = Some STimedOut /\ g' = g)) /\ o_park o = None /\ l_act l' = AIdle.
+Proof. exact try_rw_one_step. Qed.
+Print Assumptions C18_rw_try_unchanged_rw.
+
+(* timed acquisitions: while parked, the timeout transition is always enabled, and once it fired the call returns
+   B_TIMED_OUT with the thread's holdings unchanged (plain calls; for the upgrade path see C18_timed_upgrade_refuted) *)
+Theorem C18_rw_timeout_enabled : forall pref t g l, (l_act l = AParkRO Timed \/ l_act l = AParkRW Timed) ->
+  exists l', step pref t CTimeout g l = Some (g, l', wake_out false) /\
+             (l_act l' = AWokeRO Timed false \/ l_act l' = AWokeRW Timed false) /\ l_stk l' = l_stk l.
+Proof. exact timeout_always_enabled. Qed.
+Print Assumptions C18_rw_timeout_enabled.
+
+Theorem C18_rw_timed_out_returns : forall pref t g l d, (l_act l = AWokeRO d false \/ l_act l = AWokeRW d false) -> l_stk l = [] ->
+  exists g' l' o, step pref t CRun g l = Some (g', l', o) /\ o_ret o = Some STimedOut /\ l_act l' = AIdle /\
+                  l_hro l' = l_hro l /\ l_hrw l' = l_hrw l.
+Proof. exact timed_out_returns. Qed.
+Print Assumptions C18_rw_timed_out_returns.
+
+(* any number of readers may hold the lock together: with no write recursion anywhere and (preference off or no writer
+   waiting) a further reader is admitted in one transition, without disturbing the others *)
+Theorem C18_rw_readers_share : forall pref t d g l, l_act l = AEnterRO d -> l_stk l = [] ->
+  g_total g = 0 -> (pref = false \/ g_ww g = []) ->
+  exists g' l' o, step pref t CRun g l = Some (g', l', o) /\ o_ret o = Some SOk /\ o_park o = None /\
+                  (forall k, k <> t -> find k (g_exec g') = find k (g_exec g)) /\
+                  exists e, find t (g_exec g') = Some e /\ 0 < e_ro e.
+Proof. exact readers_share. Qed.
+Print Assumptions C18_rw_readers_share.
+
+(* known finding F22, stated in the model: a TIMED LockReadWrite() on the upgrade path can be parked where no timeout can fire *)
+Theorem C18_timed_upgrade_refuted : forall pref,
+  exists s, reachable pref s /\ l_op (s_l s 0) = Some (OLockRW Timed) /\ l_act (s_l s 0) = AParkRO Never /\
+            step pref 0 CTimeout (s_g s) (s_l s 0) = None /\ step pref 0 CRun (s_g s) (s_l s 0) = None.
+Proof. exact timed_upgrade_deadline_refuted. Qed.
+Print Assumptions C18_timed_upgrade_refuted.
+
+(* ---- non-vacuity: reachable states that satisfy the premises above ---- *)
+
+(* a writer (thread 0, recursion 2) with a reader and a writer queued behind it *)
+Example C18_ex_writer_and_queue :
+  exists s, reachable true s /\ g_exec (s_g s) = [(0, mkEnt 0 2)] /\ g_total (s_g s) = 2 /\
+            g_wr (s_g s) = [(1, 0)] /\ g_ww (s_g s) = [(2, 0)] /\ l_hrw (s_l s 0) = 2 /\ l_act (s_l s 0) = AIdle.
+Proof.
+  destruct (run true [B 0 (OLockRW Never); R 0; B 0 (OLockRW Try); R 0; B 1 (OLockRO Never); R 1; B 2 (OLockRW Timed); R 2] sys0) as [s|] eqn:E.
+  - exists s. split; [eapply run_reachable; [apply reach_init|exact E]|]. vm_compute in E. inversion E; subst. vm_compute. auto 10.
+  - vm_compute in E. discriminate.
+Qed.
+
+(* three readers share the lock (preference off, a writer is waiting) *)
+Example C18_ex_three_readers :
+  exists s, reachable false s /\ g_exec (s_g s) = [(0, mkEnt 1 0); (1, mkEnt 2 0); (3, mkEnt 1 0)] /\ g_total (s_g s) = 0 /\
+            g_ww (s_g s) = [(2, 0)].
+Proof.
+  destruct (run false [B 0 (OLockRO Never); R 0; B 1 (OLockRO Never); R 1; B 2 (OLockRW Never); R 2;
+                       B 1 (OLockRO Timed); R 1; B 3 (OLockRO Try); R 3] sys0) as [s|] eqn:E.
+  - exists s. split; [eapply run_reachable; [apply reach_init|exact E]|]. vm_compute in E. inversion E; subst. vm_compute. auto 10.
+  - vm_compute in E. discriminate.
+Qed.
+
+(* an unlock about to run with nothing held (fails) and one with something held (succeeds) *)
+Example C18_ex_unlocks :
+  exists s, reachable true s /\ l_act (s_l s 0) = AEnterUnRO /\ l_stk (s_l s 0) = [] /\ l_hro (s_l s 0) = 0 /\
+            l_act (s_l s 1) = AEnterUnRW /\ l_stk (s_l s 1) = [] /\ l_hrw (s_l s 1) = 1.
+Proof.
+  destruct (run true [B 1 (OLockRW Never); R 1; B 1 OUnlockRW; B 0 OUnlockRO] sys0) as [s|] eqn:E.
+  - exists s. split; [eapply run_reachable; [apply reach_init|exact E]|]. vm_compute in E. inversion E; subst. vm_compute. auto 10.
+  - vm_compute in E. discriminate.
+Qed.
+
+(* a timed waiter that is parked (its timeout can fire), and one whose timeout has fired *)
+Example C18_ex_timed :
+  exists s, reachable true s /\ l_act (s_l s 1) = AParkRO Timed /\ l_act (s_l s 2) = AWokeRW Timed false /\ l_stk (s_l s 2) = [].
+Proof.
+  destruct (run true [B 0 (OLockRW Never); R 0; B 1 (OLockRO Timed); R 1; B 2 (OLockRW Timed); R 2; T 2] sys0) as [s|] eqn:E.
+  - exists s. split; [eapply run_reachable; [apply reach_init|exact E]|]. vm_compute in E. inversion E; subst. vm_compute. auto 10.
+  - vm_compute in E. discriminate.
+Qed.
